@@ -19,6 +19,7 @@ from redress import Budget  # noqa: E402
 def op_st():
     return st.one_of(
         st.tuples(st.just("consume"), st.sampled_from([1, 1, 1, 1, 2, 3, 30, 63, 64, 65])),
+        st.tuples(st.just("consume"), st.sampled_from([1, 1, 2, 1024, 1025, 65536, 65537, 70000, 200000])),
         st.tuples(st.just("remaining")),
         st.tuples(st.just("adv"), st.sampled_from([1, 1, 2, 4, 16])),
         st.tuples(st.just("adv_win"), st.sampled_from([-1, 0, 0, 1])),  # oldest live grant ages to window (+/- 1 tick)
@@ -30,7 +31,7 @@ def op_st():
 @st.composite
 def history_case(draw, max_ops=60):
     return {
-        "max": draw(st.sampled_from([0, 1, 2, 3, 4, 5, 1, 2, 3, 64, 65, 66, 130])),
+        "max": draw(st.sampled_from([0, 1, 2, 3, 4, 5, 1, 2, 3, 64, 65, 66, 130] * 6 + [1025, 70000, 200000])),
         "window": draw(st.sampled_from([1, 4, 16, 64])),
         "ops": [list(o) for o in draw(st.lists(op_st(), min_size=1, max_size=max_ops))],
     }
@@ -159,7 +160,7 @@ def check_shared(case: dict) -> Verdict:
                         f"call #{cv.j} attempt {a.n}: budget.consume at t={t} returned {granted}, window model says {want} (max {spec['max']}, window {spec['window']}, grants {m.grants})",
                     )
                     if granted:
-                        m.grants.append(t)
+                        m._g.append((t, 1))
                 if granted:
                     policies_consuming.add(cv.j % len(case["entries"]))
                     if refused:
